@@ -106,7 +106,9 @@ let spec prop inp out =
         jprev := j;
         if d < cap && (c <> Int64.of_int d || l <> d) then
           set i (Printf.sprintf "exact regime: %d distinct values < size %d but Count=%Lu Len=%d" d cap c l);
-        if !fail = None && l > cap then begin
+        (* the property is stated for sizes >= 2; the bound is checked from size 1 on; NewCounter(0)
+           or a negative size makes every successful Add halve and has no bound to keep *)
+        if !fail = None && cap >= 1 && l > cap then begin
           len_exceeded := true;
           set i (Printf.sprintf "Len %d exceeds the buffer size %d" l cap)
         end;
